@@ -171,7 +171,7 @@ def random_ctl(r, depth, atoms=('p', 'q', 'r'), pbool=0.12):
         return ('not', random_ctl(r, depth - 1, atoms, pbool))
     if k < 0.35:
         op = r.choice(['and', 'or', 'imply'])
-        n = 2 if op == 'imply' or r.random() < 0.8 else 3
+        n = 2 if op == 'imply' or r.random() < 0.75 else r.choice([3, 3, 4, 5])
         return (op,) + tuple(random_ctl(r, depth - 1, atoms, pbool)
                              for _ in range(n))
     q = r.choice('AE')
@@ -194,7 +194,8 @@ def random_ltl_path(r, depth, atoms=('p', 'q', 'r'), pbool=0.12,
             return ('not', rec(depth - 1))
         if k < 0.4:
             op = r.choice(['and', 'or', 'imply'])
-            n = 2 if op == 'imply' or r.random() < 0.8 else 3
+            n = 2 if op == 'imply' or r.random() < 0.75 else \
+                r.choice([3, 3, 4])
             return (op,) + tuple(rec(depth - 1) for _ in range(n))
         op = r.choice('XFGUR')
         if op in 'XFG':
